@@ -2,6 +2,7 @@ import BeffVerif.Sexp
 import BeffVerif.Driver.BddOps
 import BeffVerif.Driver.ShaOps
 import BeffVerif.Driver.RtOps
+import BeffVerif.Driver.ProgOps
 /-! Line-protocol driver: one request S-expression per line on stdin, one reply per line on stdout. -/
 open BeffVerif
 
@@ -17,6 +18,7 @@ def handle (req : Sexp) : Sexp :=
   | .list (.atom "sha-bytes" :: chunks) => Driver.shaBytes chunks
   | .list (.atom "sha-toks" :: toks) => Driver.shaToks toks
   | .list [.atom "rt", env, rt, val, .atom strict] => Driver.rtOp env rt val (strict == "true")
+  | .list [.atom "prog", _, prog, _, .list vals] => Driver.progOp prog vals
   | _ => .list [.atom "bad-op"]
 
 partial def loop (h : IO.FS.Stream) (out : IO.FS.Stream) : IO Unit := do
